@@ -46,9 +46,8 @@ MODELLED = [
     "affine TransformedTargetForecaster and MultiplexForecaster are modelled only as far as needed "
     "to decode a candidate (transform the data handed to the inner forecaster, invert the forecast; "
     "a multiplexer behaves as its selected member); C09 owns their semantics",
-    "without refit, .cutoff returns None instead of raising NotFittedError: recorded in "
-    "notes/C08.md, accepted by the oracle as 'not fitted' (cutoff is a property, not one of the "
-    "delegating methods)",
+    "the cutoff property is checked to start with check_is_fitted('cutoff') (named guard) by the "
+    "site extractor; its delegation is a string fact, like predict / update",
 ]
 NOT_RUNNABLE = []
 
@@ -395,8 +394,9 @@ def oracle(case, out):
         for a, (kind, _) in zip(ans, [("predict", 0), ("update", 0), ("cutoff", 0),
                                       ("predict", 0)]):
             if kind == "cutoff":
-                if not ("not_fitted" in a or a.get("cutoff", 0) is None):
-                    return "no-refit-cutoff-reported: %s" % a
+                if "not_fitted" not in a:
+                    return "no-refit-cutoff-reported: cutoff answered %s instead of raising " \
+                           "NotFittedError" % a
             elif "not_fitted" not in a:
                 return "no-refit-did-not-raise-NotFittedError: %s answered %s" % (kind, a)
     return None
